@@ -37,6 +37,7 @@ import Rooc.Proofs.LinSucceed2
 import Rooc.Proofs.LinDExamples3
 import Rooc.Proofs.LinDExamples4
 import Rooc.Proofs.LinTrace2
+import Rooc.Proofs.LinSucceedPW
 namespace Rooc.Props.C01
 open Rooc Rooc.Lin
 open Rooc.Lin.Gadget (B01 DomMax DomMin)
@@ -991,6 +992,46 @@ example : L1 (simplify (exAffine : Model (Ext K)).objective) ∧
   simp only [exAffine, List.mem_singleton] at hc
   subst hc
   exact ⟨rfl, by simp [simplify, L1], by simp [simplify, L1], by simp [simplify, fsize, flattenFuel]⟩
+
+/-! ### the piecewise-linear fragment: `abs`, `min`, `max` (expression level)
+
+Vocabulary (`Rooc/Proofs/LinNames.lean`, `LinFresh.lean`, `LinSucceedPW.lean`):
+* `gen F i suf` — the auxiliary name of family `F` (`$abs_`, `$min_`, `$max_`, `$and_`, …, `$logic_witness_`), counter
+  `i`, suffix `suf` (none, `_positive`, `_select_j`); `SrcName x` — `x` does not start with `$`.
+* `NamesOK s` — every name in the domain of the state `s` is a `SrcName` or a `gen F i suf` with `i` below the current
+  counter of `F`; `BAgree bm s` — the bounds map of `s` agrees with `bm` on `SrcName`s;
+  `Grow s s'` — counters do not decrease, new names are generated at or above the old counters, bounds of `SrcName`s
+  are untouched.
+* `PW bm e q` — `e` is piecewise-linear (affine shapes, `abs`, `min`, `max`, any nesting; literal factors, non-zero
+  literal divisors) and, wherever the requirement `q` forces a big-M gadget, the bounds `bm` are finite (exactly the
+  condition whose failure is `MissingFiniteBounds`); decidable by recursion on `e`. -/
+
+/-- **the auxiliary names never collide**: (family, counter, suffix) ↦ name is injective. -/
+theorem aux_names_distinct {F F' : Fam} {i i' : Nat} {suf suf' : Suf} (h : gen F i suf = gen F' i' suf') :
+    F = F' ∧ i = i' ∧ suf = suf' := gen_inj h
+
+/-- **fresh-name availability**: in a state whose `$`-names were all generated below the current counters, a name
+generated at or above the current counter of its family is new — `declare_variable` cannot fail on it. -/
+theorem fresh_name_available {s : St (Ext K)} (h : NamesOK s) (F : Fam) {i : Nat} (hi : ctr s F ≤ i) (suf : Suf) :
+    gen F i suf ∉ s.domain.map (·.name) := h.fresh F hi suf
+
+/-- **no spurious error in `Exp::linearize` on the piecewise-linear fragment** (abs / min / max with the
+finite-bounds conditions): from every state whose user names do not start with `$` and whose bounds agree with
+`bm` on them, the lowering succeeds — every auxiliary variable (`$abs_i`, `$abs_i_positive`, `$max_i`,
+`$max_i_select_j`, …) is new at the moment it is declared, pruning leaves at least what `PW` inspected, the
+one-sided and big-M gadgets are emitted — and the step keeps the invariants. -/
+theorem piecewise_linearize_succeeds {bm : BoundsMap (Ext K)} {e : Exp (Ext K)} {q : Req} (h : PW bm e q)
+    (s : St (Ext K)) (hn : NamesOK s) (hb : BAgree bm s) :
+    ∃ c s', linExp e q s = .ok (c, s') ∧ Grow s s' ∧ NamesOK s' ∧ BAgree bm s' := by
+  obtain ⟨c, s', h1, g⟩ := linExp_PW h s hn hb
+  exact ⟨c, s', h1, g, hn.grow g, hb.grow g⟩
+
+/-- non-vacuity: `|x|` with `x ∈ [−3, 3]` at requirement `exact` needs the big-M gadget and is in the fragment; a
+state with the single user variable `x` satisfies the invariants, so the lowering succeeds. -/
+example : ∃ (bm : BoundsMap (Ext K)) (e : Exp (Ext K)) (s : St (Ext K)) (c : Ctx (Ext K)) (s' : St (Ext K)),
+    PW bm e .exact ∧ NamesOK s ∧ BAgree bm s ∧ linExp e .exact s = .ok (c, s') := by
+  obtain ⟨c, s', h, _⟩ := linExp_PW exPW_pw exPWState (exPW_names (K := K)) exPW_agree
+  exact ⟨_, _, _, c, s', exPW_pw, exPW_names, exPW_agree, h⟩
 
 end Success
 
